@@ -342,6 +342,17 @@ def run_case(case, res):
                             res.count("join_law_checks")
                             if a != b:
                                 bad.append(f"format(join={J!r}{', ' + repr(extra) if extra else ''}) = {a!r} differs from join.join(format_iter()) = {b!r} (style {sname})")
+                # a rendering that contains a line break is still one item of format_iter(): prefix + rendering
+                if start == -1 and sname == "round43" and rendered:
+                    ml = type(t)("ML")
+                    a_ = ml.add("first\nsecond", **({"kind": "k"} if typed else {}))
+                    a_.add("x\n", **({"kind": "k"} if typed else {}))
+                    ml.add("last", **({"kind": "k"} if typed else {}))
+                    items = attempt(lambda: list(ml.format_iter(repr="{node.data}", style="round43", title=False)))
+                    want = ["first\nsecond", "╰── x\n", "last"]  # (without a title the top nodes are the unindented level)
+                    res.count("multi_line_renderings")
+                    if items != want:
+                        bad.append(f"format_iter() with renderings that contain line breaks: {items!r}, expected {want!r}")
                 # two renderings of the same tree that overlap in time (zip of two iterators, different styles and reprs)
                 # are each what they are alone
                 if start == -1 and sname in ("round43", "ascii32", "lines32c", "list"):
